@@ -280,7 +280,9 @@ func trimValidIPv6Field(s string, gotFields int, hasEllipsis bool) (withoutField
 
 	if s[fieldLen] == '.' {
 		// Probably an IPv4 in the end.
-		return "", hasEllipsis == (gotFields < maxIPv6FieldsNum-2) && isValidIPv4String(s)
+		return "", gotFields <= maxIPv6FieldsNum-2 &&
+			hasEllipsis == (gotFields < maxIPv6FieldsNum-2) &&
+			isValidIPv4String(s)
 	}
 
 	return s[fieldLen:], true
